@@ -287,11 +287,14 @@ def main():
     def vkind(v):
         return "valgrind" if "valgrind" in v else "asan" if "asan" in v else "plain"
     sched = [(v, prop if p == "P" else p, max(CHUNK[vkind(v)], int(n * scale))) for v, p, n in sched]
+    if prop == "C14":
+        # catalogue integrity must not depend on assertions being compiled in (side effects inside assert())
+        sched += [("exc.ndebug", "C14", 1000 if tier == "quick" else 60000)]
     if prop == "C12":
         # stratified sweep (enumeration, not simulation): every sequence of length <= 4 over
         # {INIT a, INIT b, SELECT a, SELECT b, SET, GET, re-INIT a}, both precisions, in both abort builds
         sched += [("exc.plain", "C12E", C12_ENUM), ("exit.plain", "C12E", C12_ENUM)]
-    variants = sorted(set(v.replace("valgrind", "plain") for v, _, _ in sched))
+    variants = sorted(set(v.replace("valgrind", "plain") for v, _, _ in sched))  # exc.ndebug is a variant of its own
     log("run_check: property=%s tier=%s seed=%d variants=%s" % (prop, tier, seed, ",".join(variants)))
     exes = {}
     try:
